@@ -1,5 +1,6 @@
 import BU.Properties.C14
 import BU.Properties.C14_Gen
+import BU.Properties.C14_GenMsg
 import BU.Properties.C14_Witness
 #print axioms C14.magic_tie
 #print axioms C14.digest_eq_core
@@ -9,6 +10,12 @@ import BU.Properties.C14_Witness
 #print axioms C14.sign_verifies_unconditional
 #print axioms C14Gen.gen_add_magic_prefix
 #print axioms C14Gen.gen_prefix_eq_core
+#print axioms C14GenMsg.okb
+#print axioms C14GenMsg.thb
+#print axioms C14GenMsg.gen_pubkey_verify
+#print axioms C14GenMsg.gen_pubkey_recover
+#print axioms C14GenMsg.gen_pubkey_recover_rejects
+#print axioms C14GenMsg.gen_recover_sound
 #print axioms C14.mulG_6
 #print axioms C14.mulG_1
 #print axioms C14.hinf_witness
